@@ -139,9 +139,10 @@ Definition clevel_build (c : cfg) (segs : list cseg) (icpts : list Z) (maps : li
 Definition cl_size (l : clevel) : Z := zlen (cl_keys l) - 1.
 Definition cl_get_intercept (l : clevel) (i : Z) : res Z := do v <- nth_res (cl_vals l) i; Ok (wrapS 64 (cl_offset l + v)).   (* int64_t arithmetic *)
 
-(* int64_t(slope * (k - origin)) with Floating arithmetic, saturating for far keys (after the fix) *)
+(* int64_t(slope * (k - origin)) with Floating arithmetic, saturating for far keys: p >= Floating(INT64_MAX / 2) = 2^62
+   (after the fixes; the limit is tied to the source by LeafTie.sat_limit_tie) *)
 Definition fmul_to_i64 (c : cfg) (slope : f64) (d : Z) : Z :=
-  let far := fun {p e} (x : binary_float p e) => match truncZ x with Some z => z >=? 2 ^ 63 | None => true end in
+  let far := fun {p e} (x : binary_float p e) => match truncZ x with Some z => z >=? 2 ^ 62 | None => true end in
   if c_fdouble c then
     let p := mul64 slope (ofZ64 d) in if far p then 2 ^ 63 - 1 else cvtt_i64 p
   else
